@@ -41,6 +41,7 @@ typedef struct
 {	int		bit_width, dwm_maxsize, max_delta, span ;
 	int		samplecount ;
 	int		bit_count, bits, last_delta_width, last_sample ;
+	int		pad_bits ;	/* Zero bits shifted in after the end of the input. */
 	struct
 	{	int				index, end ;
 		unsigned char	buffer [256] ;
@@ -315,7 +316,7 @@ dwvw_decode_data (SF_PRIVATE *psf, DWVW_PRIVATE *pdwvw, int *ptr, int len)
 		delta_width_modifier = dwvw_decode_load_bits (psf, pdwvw, -1) ;
 
 		/* Check for end of input bit stream. Break loop if end. */
-		if (delta_width_modifier < 0 || (pdwvw->b.end == 0 && count == 0))
+		if (delta_width_modifier < 0 || (pdwvw->b.end == 0 && pdwvw->bit_count < pdwvw->pad_bits))
 			break ;
 
 		if (delta_width_modifier && dwvw_decode_load_bits (psf, pdwvw, 1))
@@ -390,7 +391,9 @@ dwvw_decode_load_bits (SF_PRIVATE *psf, DWVW_PRIVATE *pdwvw, int bit_count)
 		if (pdwvw->b.index < pdwvw->b.end)
 		{	pdwvw->bits |= pdwvw->b.buffer [pdwvw->b.index] ;
 			pdwvw->b.index ++ ;
-			} ;
+			}
+		else
+			pdwvw->pad_bits += 8 ;
 		pdwvw->bit_count += 8 ;
 		} ;
 
